@@ -35,6 +35,16 @@
 //! ReplyAlt / NaNoOverride / RequestAlt / Announce events. Using such an address shows up as
 //! `C16/hwaddr/<med>/ineligible-hop-limit-not-255` (resp. `-icmp-code-not-0`, `-bad-checksum`).
 //!
+//! Time: every frame is judged at the time the harness passed to the interface call during
+//! which it left, not at the timestamp the stack hands to the device (a stale stamp is counted,
+//! only a future / never-used one is a machinery error). `rate-split` and `expiry-split` repeat
+//! those alphabets with the lower-level driving discipline (poll_ingress_single per frame, then
+//! poll_egress until quiet) instead of Interface::poll.
+//! NA with a target different from its IPv6 source (configuration `natarget`, IPv6 media): the
+//! entry concerned is the SOURCE's (pinned from process_ndisc); with Override it is replaced,
+//! without Override an unexpired entry must stay as it is (strict there, see
+//! `NeighCfg::strict_no_override`), cause `ineligible-override-clear-while-entry-live`.
+//!
 //! Lenient readings (statement leaves room; each can only accept more behaviours):
 //!  * "confirmed": any eligible assertion, or any IP packet addressed to one of our unicast
 //!    addresses whose IP source is the neighbor and whose link-layer source equals the asserted
@@ -59,14 +69,14 @@ use crate::core::*;
 use crate::sim::*;
 use parse::*;
 use serde_json::json;
-use smoltcp::iface::{Config, Interface, Route, SocketHandle, SocketSet};
+use smoltcp::iface::{Config, Interface, PollResult, Route, SocketHandle, SocketSet};
 use smoltcp::phy::Medium;
 use smoltcp::socket::{icmp, udp};
 use smoltcp::time::Instant;
 use smoltcp::wire::{
     EthernetAddress, HardwareAddress, Ieee802154Address, Ieee802154Pan, IpAddress, IpCidr, IpEndpoint, Ipv4Address, Ipv6Address,
 };
-use std::collections::{BTreeMap, VecDeque};
+use std::collections::{BTreeMap, BTreeSet, VecDeque};
 use std::sync::{Arc, Mutex};
 
 const SEC: i64 = 1_000_000;
@@ -329,6 +339,10 @@ pub enum DiscKind {
     /// addressed to our unicast address, announcing the node's alternative hardware address.
     /// RFC 4861 7.1.1/7.1.2: MUST be silently discarded, so nothing is learned from it.
     Forwarded { msg: FwdMsg, hop: u8 },
+    /// IPv6 only: a valid NA (hop limit 255) from the node's IPv6 source whose TARGET address is
+    /// another address (`other_node`: N2's, else an on-link address nobody owns), Solicited,
+    /// Override as given, target link-layer option = the node's alternative hardware address
+    NaTarget { override_flag: bool, other_node: bool },
     /// IPv6 only: NA(S|O) with hop limit 255 announcing the alternative address, but with ICMPv6
     /// code 1 (`bad_csum` false) or a corrupted checksum (`bad_csum` true): same rule
     Malformed { bad_csum: bool },
@@ -437,6 +451,14 @@ pub struct NeighCfg {
     /// IPv4 only: the interface has two addresses, the first one on 172.20.0.0/20, the second on
     /// the subnet of the usual neighbors
     pub two_nets: bool,
+    /// the Poll event drives the interface with the lower-level API (frames already go through
+    /// poll_ingress_single): poll_egress until it reports nothing, instead of Interface::poll
+    pub split: bool,
+    /// an NA without Override must leave an unexpired entry alone (strict, as process_ndisc
+    /// documents). Only sound where the real cache cannot have lost the entry the model still
+    /// holds: at most two protocol addresses ever speak (no eviction even with 2 slots) and the
+    /// interface addresses never change (no flush). Elsewhere such an NA only ADDS a candidate.
+    pub strict_no_override: bool,
     /// socket 0 sends datagrams that need three or more link-layer fragments (Ethernet: the
     /// device MTU is lowered to 114 octets; 802.15.4: 6LoWPAN fragmentation)
     pub big: bool,
@@ -648,6 +670,8 @@ pub struct NeighH {
     last_pending_poll: Vec<Option<i64>>,
     /// source address of the latest discovery request per target (read by Drain in the same event)
     last_req_sender: BTreeMap<Ip, Ip>,
+    /// every time value passed to an interface call so far (plausibility of device timestamps)
+    call_times: BTreeSet<i64>,
 }
 
 impl Drop for NeighH {
@@ -830,7 +854,7 @@ impl NeighH {
                     let mc = vec![0x01, 0x00, 0x5e, 0x00, 0x00, 0x01];
                     (stim::eth(&me, &tru, 0x0806, &stim::arp(2, &mc, &ip, &me, &mine)), Effect::Rejected(ip, mc, "nonunicast"))
                 }
-                DiscKind::NaNoOverride | DiscKind::Forwarded { .. } | DiscKind::Malformed { .. } => return None,
+                DiscKind::NaNoOverride | DiscKind::Forwarded { .. } | DiscKind::Malformed { .. } | DiscKind::NaTarget { .. } => return None,
             };
             return Some((r.0, r.1, None));
         }
@@ -843,12 +867,42 @@ impl NeighH {
             let dst = self.our_addr_for(src);
             self.wrap_ip(&me, ll_src, src, &dst, 58, 255, &stim::na(src, &dst, flags, src, Some(tlla)))
         };
+        // Override clear, strict reading (configurations that cannot lose a cache entry): an
+        // unexpired entry must not change; without one the advertisement creates the entry.
+        // The packet itself is traffic from (source, alt) and is applied by the caller BEFORE this
+        // effect, exactly like reset_expiry_if_existing precedes process_ndisc.
+        let now = self.now;
+        let live = self.m.any_fresh(&ip, now) && !self.m.fresh(&ip, &alt, now);
+        let no_override = move |ip: Ip, hw: Vec<u8>| if live { Effect::Rejected(ip, hw, "override-clear-while-entry-live") } else { Effect::Definite(ip, hw) };
         let r: (Vec<u8>, Effect, Option<(Ip, Vec<u8>)>) = match kind {
             DiscKind::Reply => (na_uni(&tru, &ip, 0x60, &tru), eligible(ip.clone(), tru.clone(), on_link), Some((ip, tru))),
             DiscKind::ReplyAlt => (na_uni(&alt, &ip, 0x60, &alt), eligible(ip.clone(), alt.clone(), on_link), Some((ip, alt))),
             DiscKind::NaNoOverride => {
-                let e = if on_link { Effect::Optional(ip.clone(), alt.clone()) } else { Effect::Rejected(ip.clone(), alt.clone(), "offlink") };
+                let e = if !on_link {
+                    Effect::Rejected(ip.clone(), alt.clone(), "offlink")
+                } else if self.cfg.strict_no_override {
+                    no_override(ip.clone(), alt.clone())
+                } else {
+                    Effect::Optional(ip.clone(), alt.clone())
+                };
                 (na_uni(&alt, &ip, 0x40, &alt), e, Some((ip, alt)))
+            }
+            DiscKind::NaTarget { override_flag, other_node } => {
+                // pinned from process_ndisc: the entry an NA creates or updates is the one of its
+                // IPv6 SOURCE, whatever the target says; nothing is learned about the target
+                let target = if other_node && from != Node::N2 { node_ip(med, Node::N2) } else { v6([0x2001, 0xdb8, 0, 0, 0, 0, 0, 0x77]) };
+                let flags = if override_flag { 0x60 } else { 0x40 };
+                let e = if !on_link {
+                    Effect::Rejected(ip.clone(), alt.clone(), "offlink")
+                } else if override_flag {
+                    Effect::Definite(ip.clone(), alt.clone())
+                } else if self.cfg.strict_no_override {
+                    no_override(ip.clone(), alt.clone())
+                } else {
+                    Effect::Optional(ip.clone(), alt.clone())
+                };
+                let f = self.wrap_ip(&me, &alt, &ip, &mine, 58, 255, &stim::na(&ip, &mine, flags, &target, Some(&alt)));
+                (f, e, Some((ip, alt)))
             }
             DiscKind::Announce => {
                 let f = self.wrap_ip(&ll_mcast(&all_nodes), &tru, &ip, &all_nodes, 58, 255, &stim::na(&ip, &all_nodes, 0x20, &ip, Some(&tru)));
@@ -950,6 +1004,7 @@ impl NeighH {
     fn ingress(&mut self, frame: Vec<u8>, out: &mut Vec<Viol>) -> Vec<Ip> {
         self.dev.rx.push_back(frame);
         let ts = self.ts();
+        self.call_times.insert(self.now);
         let _ = self.iface.poll_ingress_single(ts, &mut self.dev, &mut self.sockets);
         if !self.dev.rx.is_empty() {
             self.machinery(out, "rx-not-consumed", "poll_ingress_single left a frame in the device".into());
@@ -966,7 +1021,19 @@ impl NeighH {
         let heads: Vec<Option<Ip>> = self.m.queues.iter().map(|q| q.front().cloned()).collect();
         let limiter_idle = self.m.last_req_any.map_or(true, |p| self.now - p >= MIN_GAP);
         let ts = self.ts();
-        let _ = self.iface.poll(ts, &mut self.dev, &mut self.sockets);
+        self.call_times.insert(self.now);
+        if self.cfg.split {
+            let mut guard = 0;
+            while self.iface.poll_egress(ts, &mut self.dev, &mut self.sockets) != PollResult::None {
+                guard += 1;
+                if guard > 64 {
+                    self.machinery(out, "poll-egress-does-not-settle", "poll_egress kept reporting progress 64 times".into());
+                    break;
+                }
+            }
+        } else {
+            let _ = self.iface.poll(ts, &mut self.dev, &mut self.sockets);
+        }
         let reqs = self.check_tx(out);
         // Clause 2, progress part. A poll in which (a) no discovery request went out although
         // (b) the last one (for any target) is at least 1 s old, so nothing is rate limited, and
@@ -1008,11 +1075,17 @@ impl NeighH {
     /// judge all frames handed to the device since the last call; returns the discovery targets seen
     fn check_tx(&mut self, out: &mut Vec<Viol>) -> Vec<Ip> {
         let mut reqs = vec![];
+        // Time is what the HARNESS passed to the interface call that produced the frame: every
+        // frame is judged (60 s age, expiry, 1 s rate) at the time of the current call, whatever
+        // timestamp the stack handed to the device. Only impossible stamps are machinery errors.
+        let now = self.now;
         for (ts, f) in self.dev.take_tx() {
-            if ts != self.now {
-                self.machinery(out, "tx-timestamp", format!("frame stamped {} at harness time {}", ts, self.now));
+            if ts > now || !self.call_times.contains(&ts) {
+                self.machinery(out, "tx-timestamp", format!("frame stamped {} which is in the future of / matches no interface call (harness time {})", ts, now));
+            } else if ts != now {
+                self.stats.inc("frames_stamped_with_the_time_of_an_earlier_call");
             }
-            self.check_frame(ts, &f, out, &mut reqs);
+            self.check_frame(now, &f, out, &mut reqs);
         }
         reqs
     }
@@ -1390,6 +1463,7 @@ impl Harness for NeighH {
             frag_dst: None,
             last_pending_poll: vec![None; cfg.n_socks + cfg.icmp as usize],
             last_req_sender: BTreeMap::new(),
+            call_times: [T0].into_iter().collect(),
         };
         h.m.queues = vec![VecDeque::new(); cfg.n_socks + cfg.icmp as usize];
         h.m.addrs = our_addrs(med, AddrState::Base, cfg.two_nets);
@@ -1608,7 +1682,9 @@ fn profiles(med: Med, slots: usize) -> Vec<(&'static str, usize, bool, Vec<Ev>, 
             a.push(send(1, D::R1));
             a.push(disc(G1, Reply));
         }
-        out.push(("rate", 2, false, a, 6, 8));
+        out.push(("rate", 2, false, a.clone(), 6, 8));
+        // the same alphabet driven with poll_ingress_single + poll_egress only
+        out.push(("rate-split", 2, false, a, 5, 7));
     }
     // expiry, refresh by traffic, replacement
     {
@@ -1630,7 +1706,8 @@ fn profiles(med: Med, slots: usize) -> Vec<(&'static str, usize, bool, Vec<Ev>, 
         } else {
             a.push(traf(N1, TrafKind::QuietAlt));
         }
-        out.push(("expiry", 2, false, a, 7, 10));
+        out.push(("expiry", 2, false, a.clone(), 7, 10));
+        out.push(("expiry-split", 2, false, a, 6, 9));
     }
     // routing: default route change, expiring specific route, two gateways
     {
@@ -1674,6 +1751,30 @@ fn profiles(med: Med, slots: usize) -> Vec<(&'static str, usize, bool, Vec<Ev>, 
             Ev::Drain,
         ];
         out.push(("twonet", 2, false, a, 6, 8));
+    }
+    // IPv6: advertisements whose target differs from their source. Only N1 and G1 ever speak
+    // and addresses never change, so no entry can be lost: Override-clear is judged strictly.
+    if v6 {
+        let nat = |from, override_flag, other_node| disc(from, NaTarget { override_flag, other_node });
+        let a = vec![
+            send(0, D::N1),
+            send(0, D::R1),
+            disc(N1, Reply),
+            disc(G1, Reply),
+            nat(N1, false, true),
+            nat(N1, false, false),
+            nat(N1, true, true),
+            nat(N1, true, false),
+            nat(G1, false, true),
+            nat(G1, true, false),
+            disc(N1, NaNoOverride),
+            traf(N1, TrafKind::Quiet),
+            Ev::Advance(1000),
+            Ev::Advance(59000),
+            Ev::Advance(61000),
+            Ev::Poll,
+        ];
+        out.push(("natarget", 1, false, a, 6, 8));
     }
     // IPv6: NDISC messages that must be silently discarded (hop limit 64 / 1, ICMPv6 code 1,
     // bad checksum) carrying a neighbor's / the gateway's source and a different hardware address
@@ -1809,6 +1910,8 @@ fn all_cfgs(tier: Tier) -> Vec<(NeighCfg, usize)> {
                 icmp: name == "auto",
                 big: name.starts_with("frag"),
                 two_nets: name == "twonet",
+                split: name.ends_with("-split"),
+                strict_no_override: name == "natarget",
                 autopoll,
                 alphabet: Arc::new(alphabet),
                 cache_slots: slots,
